@@ -32,6 +32,7 @@ type UnpackArg struct {
 	Chunk   int          `json:"chunk,omitempty"`
 	Format  int          `json:"format,omitempty"`
 	Benign  bool         `json:"benign,omitempty"` // also run the variant whose last (link) entry has a harmless target
+	Prepop  bool         `json:"prepop,omitempty"` // dst already holds content: pre -> .. (link), predir/, prefile (0444), prelink -> ../dst-evil/t
 }
 
 type LinkFact struct {
@@ -127,6 +128,12 @@ func runUnpackOnce(a unpackArena, arg UnpackArg, entries []tarx.Entry) (out Unpa
 		return
 	}
 	out.GzLen = len(data)
+	if arg.Prepop {
+		os.Symlink("..", filepath.Join(a.Dst, "pre"))
+		os.Symlink("../dst-evil/t", filepath.Join(a.Dst, "prelink"))
+		os.MkdirAll(filepath.Join(a.Dst, "predir"), 0755)
+		mkfile(filepath.Join(a.Dst, "prefile"), "P", 0444)
+	}
 	before := fsx.Snapshot(a.A, a.Dst)
 	var opts []slug.PackerOption
 	if arg.Allow {
@@ -162,6 +169,9 @@ func runUnpackOnce(a unpackArena, arg UnpackArg, entries []tarx.Entry) (out Unpa
 			return nil
 		}
 		t, _ := os.Readlink(p)
+		if arg.Prepop && (filepath.Base(p) == "pre" || filepath.Base(p) == "prelink") && filepath.Dir(p) == a.Dst {
+			return nil // was there before Unpack ran
+		}
 		var lex string
 		if filepath.IsAbs(t) {
 			lex = filepath.Clean(t)
@@ -235,15 +245,15 @@ func lexEscapes(name, target string) bool {
 
 func unpackAlphabet(full bool) []tarx.Entry {
 	var es []tarx.Entry
-	regNames := []string{"a", "a/b", "y", "y/x", "a/up", "/abs", "../dst-evil/x", "../dst-evil/t", "a/../../dst-evil/x", "../secret", ".", "nx/../y/x", "nx/../y", "/../dst-evil/x", "a//b", "./y/./x", "..a", ".../x"}
-	dirNames := []string{"a/", "a", "y/", "a/b/", "a/up/", "../dst-evil/", "../dst-evil/x/", ".", "nx/../y/", "nx/../y/x/"}
+	regNames := []string{"a", "a/b", "y", "y/x", "a/up", "/abs", "../dst-evil/x", "../dst-evil/t", "a/../../dst-evil/x", "../secret", ".", "nx/../y/x", "nx/../y", "/../dst-evil/x", "a//b", "./y/./x", "..a", ".../x", "pre/x", "pre", "prelink", "prefile", "predir/x", "pre/dst-evil/x"}
+	dirNames := []string{"a/", "a", "y/", "a/b/", "a/up/", "../dst-evil/", "../dst-evil/x/", ".", "nx/../y/", "nx/../y/x/", "pre/", "pre/sub/", "prelink"}
 	linkNames := []string{"a", "y", "a/up", "a/b", "y/x", "/abs", "../dst-evil/x", "nx/../y/x", "y/", "a/up/.", "y/a/up"}
 	targets := []string{"a", "a/b", "..", ".", "../..", "a/up/..", "a/up/../secret", "../dst-evil", "../dst-evil/t", "../secret", "<DST>/a", "<P>/secret", "../allowed/f"}
 	otherKinds := []tarx.Entry{{Name: "../dst-evil/sub/g", Kind: "xglobal"}, {Name: "y/sub/g", Kind: "xglobal"}, {Name: "g", Kind: "xglobal"},
 		{Name: "../dst-evil/ff", Kind: "fifo"}, {Name: "../dst-evil/sub/hl", Kind: "hard", Target: "../secret"}, {Name: "hl", Kind: "hard", Target: "../secret"}}
 	if !full {
-		regNames = []string{"a", "a/b", "y", "y/x", "../dst-evil/x", "../dst-evil/t", "a/../../dst-evil/x", "nx/../y/x", "/../dst-evil/x"}
-		dirNames = []string{"a/", "y", "../dst-evil/", "a/up/"}
+		regNames = []string{"a", "a/b", "y", "y/x", "../dst-evil/x", "../dst-evil/t", "a/../../dst-evil/x", "nx/../y/x", "/../dst-evil/x", "pre/x", "prelink", "prefile"}
+		dirNames = []string{"a/", "y", "../dst-evil/", "a/up/", "pre/"}
 		linkNames = []string{"a", "y", "a/up", "y/a/up"}
 		targets = []string{"a", "..", ".", "../..", "a/up/..", "a/up/../secret", "../dst-evil", "../dst-evil/t", "<P>/secret"}
 		otherKinds = otherKinds[:2]
@@ -264,14 +274,15 @@ func unpackAlphabet(full bool) []tarx.Entry {
 }
 
 type unpackCfg struct {
-	Dst   string
-	Allow bool
-	UID   int
-	Chunk int
+	Dst    string
+	Allow  bool
+	UID    int
+	Chunk  int
+	Prepop bool
 }
 
 func (c unpackCfg) String() string {
-	return fmt.Sprintf("dst=%q allow=%v uid=%d chunk=%d", c.Dst, c.Allow, c.UID, c.Chunk)
+	return fmt.Sprintf("dst=%q allow=%v uid=%d chunk=%d prepopulated=%v", c.Dst, c.Allow, c.UID, c.Chunk, c.Prepop)
 }
 
 // classifyOutside gives the attribution signature of an outside change from
@@ -350,6 +361,8 @@ func RunUnpackSafety(id, tier string) int {
 			{unpackCfg{Allow: true}, true, 2, true},
 			{unpackCfg{Allow: true, UID: 65534}, false, 3, true},
 			{unpackCfg{Chunk: 1}, true, 2, true},
+			{unpackCfg{Prepop: true}, true, 2, true},
+			{unpackCfg{Prepop: true, UID: 65534}, false, 3, true},
 			{unpackCfg{}, false, 3, false}, // differential check of the dedup abstraction
 			{unpackCfg{}, false, 4, true},
 		}
@@ -359,6 +372,7 @@ func RunUnpackSafety(id, tier string) int {
 			{unpackCfg{UID: 65534}, true, 2, true},
 			{unpackCfg{Dst: "slash"}, false, 2, true},
 			{unpackCfg{Allow: true}, false, 2, true},
+			{unpackCfg{Prepop: true}, false, 2, true},
 			{unpackCfg{}, false, 3, true},
 		}
 	}
@@ -445,7 +459,7 @@ func RunUnpackSafety(id, tier string) int {
 					es[j] = alpha[o]
 				}
 				last := es[len(es)-1]
-				args[i] = UnpackArg{Entries: es, Dst: pl.cfg.Dst, Allow: pl.cfg.Allow, Cut: -1, Chunk: pl.cfg.Chunk,
+				args[i] = UnpackArg{Entries: es, Dst: pl.cfg.Dst, Allow: pl.cfg.Allow, Cut: -1, Chunk: pl.cfg.Chunk, Prepop: pl.cfg.Prepop,
 					Benign: id == "C04" && last.Kind == "link" && lexEscapes(last.Name, last.Target) && !(pl.cfg.Allow && strings.Contains(last.Target, "allowed"))}
 				return args[i]
 			}, func(i int, r core.Result) {
